@@ -149,9 +149,23 @@ def r1_panic_free(ck, F):
     ck.ob("C13-R2", "no-block-load-at-open", not loads, "opening reads no block (only the trailer)", config=F.config)
 
 
+# documented never-panicking std functions (total on every input), by last path segment within a family
+_TOTAL_STD = (
+    ("core::slice::<impl [T]>::", {"get", "first", "last", "len", "is_empty", "iter", "split_first", "split_last", "as_ptr"}),
+    ("std::option::Option::<&T>::", {"copied", "cloned"}),
+    ("std::option::Option::<T>::", {"ok_or", "ok_or_else", "map", "and_then", "filter", "is_some", "is_none", "as_ref", "unwrap_or", "unwrap_or_default", "or", "xor", "zip", "copied", "cloned"}),
+    ("std::result::Result::<T, E>::", {"map", "map_err", "and_then", "ok", "is_ok", "is_err", "or_else"}),
+)
+
+
 def _allowed(n):
     if n in ALLOW_EXTERNAL:
         return True
+    for pre, lasts in _TOTAL_STD:
+        if n.startswith(pre) and n[len(pre):].split("::")[0] in lasts:
+            return True
+    if n.startswith("std::convert::num::<impl std::convert::From<") and n.endswith(">::from"):
+        return True     # lossless integer widening
     if n.startswith("<R as ") or n.startswith("<&mut R as ") or n.startswith("std::io::Seek::") or n.startswith("byteorder::ReadBytesExt::read_"):
         return n.rsplit("::", 1)[-1] in ("seek", "read_u8", "read_u32", "read_u64", "read_exact")
     if n.endswith("Try>::branch") or n.endswith("::from_residual") or n.endswith("From<std::io::Error>>::from"):
